@@ -79,7 +79,7 @@ func HashStr(s string) uint64 {
 }
 
 func Mix(a, b uint64) uint64 {
-	z := a ^ (b+0x9E3779B97F4A7C15+(a<<6)+(a>>2))
+	z := a ^ (b + 0x9E3779B97F4A7C15 + (a << 6) + (a >> 2))
 	z = (z ^ (z >> 30)) * 0xBF58476D1CE4E5B9
 	return z ^ (z >> 31)
 }
